@@ -633,7 +633,8 @@ def c11(ck):
     # word accesses and stack operations at the edges, executed as instructions (both engines share the helpers)
     import gbprog
     rng = random.Random(vlib.seed() + 11)
-    scs = gbprog.edge_access_programs(rng) + gbprog.serial_flood_programs()
+    # (and interrupt dispatches with the stack pointer on 0 / 1 / 2 and on IF / IE: the two pushes wrap like any other)
+    scs = gbprog.edge_access_programs(rng) + gbprog.serial_flood_programs() + gbprog.dispatch_cancel_programs(rng)
     record_and_validate_machine(ck, scs, "c11edge", jit=False, shards=4, validate=False)     # completion is the observation
     record_and_validate_machine(ck, [dict(x, mode="block") for x in scs], "c11edgej", jit=True, shards=4, validate=False)
 
